@@ -699,6 +699,14 @@ with SqlImpl.impl_store.impl_manager as impl:
     def _xor(lhs, rhs):
         return lhs != rhs
 
+    @impl(ops.neg)
+    def _neg(x):
+        # The negation of a negative literal would be rendered as `--7`, which starts a
+        # comment in SQL.
+        if isinstance(x, sqa.BindParameter):
+            return -sqa.sql.elements.Grouping(x)
+        return -x
+
     @impl(ops.pos)
     def _pos(x):
         return x
